@@ -50,253 +50,6 @@ theorem lastIdx_cons_ne (x : SvcName) (s : Service) (ss : List Service) (i : Nat
   simp only [lastIdx]
   cases lastIdx x ss (i + 1) <;> simp [h]
 
-theorem addLoop_spec (dn : Name) (dv : Ver) (ss : List Service) :
-    ∀ (i : Nat) (r : SvcName → Option SvcRoute) (acc : List SvcName) (x : SvcName),
-      ((Foreign r dn x ∨ ¬ listed ss x) → (addLoop dn dv ss i r acc).1 x = r x) ∧
-      (listed ss x → ¬ Foreign r dn x →
-        ∃ j, lastIdx x ss i = some j ∧ (addLoop dn dv ss i r acc).1 x = some ⟨dn, dv, j⟩) ∧
-      (x ∈ (addLoop dn dv ss i r acc).2 ↔ x ∈ acc ∨ (listed ss x ∧ ¬ Foreign r dn x)) := by
-  induction ss with
-  | nil => intro i r acc x; simp [addLoop, listed]
-  | cons s ss ih =>
-    intro i r acc x
-    -- the two "store" branches behave identically
-    have store : ∀ (hnf : ¬ Foreign r dn s.name),
-        ((Foreign r dn x ∨ ¬ listed (s :: ss) x) →
-            (addLoop dn dv ss (i + 1) (upd r s.name (some ⟨dn, dv, i⟩)) (acc ++ [s.name])).1 x = r x) ∧
-        (listed (s :: ss) x → ¬ Foreign r dn x →
-          ∃ j, lastIdx x (s :: ss) i = some j ∧
-            (addLoop dn dv ss (i + 1) (upd r s.name (some ⟨dn, dv, i⟩)) (acc ++ [s.name])).1 x = some ⟨dn, dv, j⟩) ∧
-        (x ∈ (addLoop dn dv ss (i + 1) (upd r s.name (some ⟨dn, dv, i⟩)) (acc ++ [s.name])).2 ↔
-          x ∈ acc ∨ (listed (s :: ss) x ∧ ¬ Foreign r dn x)) := by
-      intro hnf
-      obtain ⟨ih1, ih2, ih3⟩ := ih (i + 1) (upd r s.name (some ⟨dn, dv, i⟩)) (acc ++ [s.name]) x
-      by_cases hx : x = s.name
-      · subst hx
-        have hnf' : ¬ Foreign (upd r s.name (some ⟨dn, dv, i⟩)) dn s.name := by
-          rintro ⟨o, ho, hne⟩; rw [upd_same] at ho; cases ho; exact hne rfl
-        refine ⟨?_, ?_, ?_⟩
-        · rintro (h | h)
-          · exact absurd h hnf
-          · exact absurd ((listed_cons _ _ _).mpr (Or.inl rfl)) h
-        · intro _ _
-          by_cases hl : listed ss s.name
-          · obtain ⟨j, hj, hp⟩ := ih2 hl hnf'
-            refine ⟨j, ?_, hp⟩
-            simp only [lastIdx, hj]
-          · have hn := (lastIdx_none s.name ss (i + 1)).mpr hl
-            refine ⟨i, ?_, ?_⟩
-            · simp [lastIdx, hn]
-            · rw [ih1 (Or.inr hl), upd_same]
-        · rw [ih3]
-          simp [listed_cons, hnf]
-      · have hne : s.name ≠ x := fun h => hx h.symm
-        have hr : upd r s.name (some ⟨dn, dv, i⟩) x = r x := upd_other _ _ _ hx
-        have hf : Foreign (upd r s.name (some ⟨dn, dv, i⟩)) dn x ↔ Foreign r dn x := by
-          simp [Foreign, hr]
-        have hl : listed (s :: ss) x ↔ listed ss x := by simp [listed_cons, hne]
-        rw [hl, lastIdx_cons_ne x s ss i hne, ← hf, ← hr]
-        refine ⟨ih1, ih2, ?_⟩
-        rw [ih3]; simp [hx]
-    simp only [addLoop]
-    cases hrs : r s.name with
-    | none =>
-      simp only
-      exact store (by rintro ⟨o, ho, _⟩; rw [hrs] at ho; cases ho)
-    | some old =>
-      simp only
-      by_cases ht : old.target ≠ dn
-      · simp only [ht, ne_eq, not_false_eq_true, ↓reduceIte]
-        obtain ⟨ih1, ih2, ih3⟩ := ih (i + 1) r acc x
-        by_cases hx : x = s.name
-        · subst hx
-          have hfor : Foreign r dn s.name := ⟨old, hrs, ht⟩
-          refine ⟨fun _ => ih1 (Or.inl hfor), fun _ h => absurd hfor h, ?_⟩
-          rw [ih3]; simp [hfor]
-        · have hne : s.name ≠ x := fun h => hx h.symm
-          have hl : listed (s :: ss) x ↔ listed ss x := by simp [listed_cons, hne]
-          rw [hl, lastIdx_cons_ne x s ss i hne]
-          exact ⟨ih1, ih2, ih3⟩
-      · have ht' : old.target = dn := by simpa using ht
-        simp only [ht', ne_eq, not_true_eq_false, ↓reduceIte]
-        exact store (by rintro ⟨o, ho, hne⟩; rw [hrs] at ho; cases ho; exact hne ht')
-
-theorem delLoop_spec (present : List SvcName) (old : List SvcName) :
-    ∀ (r : SvcName → Option SvcRoute) (x : SvcName),
-      delLoop present old r x = if x ∈ old ∧ x ∉ present then none else r x := by
-  induction old with
-  | nil => intro r x; simp [delLoop]
-  | cons s ss ih =>
-    intro r x
-    simp only [delLoop]
-    by_cases hp : s ∈ present
-    · simp only [hp, ↓reduceIte, ih]
-      by_cases hx : x = s
-      · subst hx; simp [hp]
-      · simp [hx]
-    · simp only [hp, ↓reduceIte, ih]
-      by_cases hx : x = s
-      · subst hx; simp [hp, upd_same]
-      · simp [hx, upd_other _ _ _ hx]
-
-/-- structural invariant of the service table: the sync.Map and the per-target claim lists agree -/
-structure SInv0 (st : SvcState) : Prop where
-  owned : ∀ x r, st.routes x = some r → x ∈ sliceOf (st.svcRoutes r.target)
-  claims : ∀ n x, x ∈ sliceOf (st.svcRoutes n) → ∃ r, st.routes x = some r ∧ r.target = n
-
-theorem SInv0_init : SInv0 SvcState.init := by
-  constructor
-  · intro x r h; simp [SvcState.init] at h
-  · intro n x h; simp [SvcState.init, sliceOf] at h
-
-theorem updateRoutes_routes (st : SvcState) (d : Desc) (x : SvcName) :
-    (updateRoutes st d).routes x =
-      if x ∈ sliceOf (st.svcRoutes d.name) ∧ x ∉ (addLoop d.name d.ver d.services 0 st.routes []).2 then none
-      else (addLoop d.name d.ver d.services 0 st.routes []).1 x := by
-  simp [updateRoutes, delLoop_spec]
-
-theorem updateRoutes_svcRoutes (st : SvcState) (d : Desc) :
-    (updateRoutes st d).svcRoutes = upd st.svcRoutes d.name (some (addLoop d.name d.ver d.services 0 st.routes []).2) := rfl
-
-theorem updateRoutes_watching (st : SvcState) (d : Desc) : (updateRoutes st d).watching = st.watching := rfl
-
-/-- U1: a service held by another target is untouched (the first claimant keeps it) -/
-theorem update_foreign {st : SvcState} (h : SInv0 st) (d : Desc) (x : SvcName)
-    (hf : Foreign st.routes d.name x) : (updateRoutes st d).routes x = st.routes x := by
-  rw [updateRoutes_routes]
-  obtain ⟨a1, _, _⟩ := addLoop_spec d.name d.ver d.services 0 st.routes [] x
-  have hnot : x ∉ sliceOf (st.svcRoutes d.name) := by
-    intro hx
-    obtain ⟨r, hr, ht⟩ := h.claims _ _ hx
-    obtain ⟨o, ho, hne⟩ := hf
-    rw [hr] at ho; cases ho; exact hne ht
-  simp [hnot, a1 (Or.inl hf)]
-
-/-- U2: a listed service that is free or already ours now points into the new description -/
-theorem update_listed {st : SvcState} (d : Desc) (x : SvcName)
-    (hl : listed d.services x) (hf : ¬ Foreign st.routes d.name x) :
-    ∃ j, lastIdx x d.services 0 = some j ∧ (updateRoutes st d).routes x = some ⟨d.name, d.ver, j⟩ := by
-  rw [updateRoutes_routes]
-  obtain ⟨_, a2, a3⟩ := addLoop_spec d.name d.ver d.services 0 st.routes [] x
-  obtain ⟨j, hj, hp⟩ := a2 hl hf
-  have hin : x ∈ (addLoop d.name d.ver d.services 0 st.routes []).2 := a3.mpr (Or.inr ⟨hl, hf⟩)
-  exact ⟨j, hj, by simp [hin, hp]⟩
-
-/-- U3: a service the new description no longer lists (and nobody else holds) is gone -/
-theorem update_unlisted {st : SvcState} (h : SInv0 st) (d : Desc) (x : SvcName)
-    (hl : ¬ listed d.services x) (hf : ¬ Foreign st.routes d.name x) :
-    (updateRoutes st d).routes x = none := by
-  rw [updateRoutes_routes]
-  obtain ⟨a1, _, a3⟩ := addLoop_spec d.name d.ver d.services 0 st.routes [] x
-  have hnin : x ∉ (addLoop d.name d.ver d.services 0 st.routes []).2 := by
-    intro hx; rcases a3.mp hx with h | ⟨h, _⟩
-    · simp at h
-    · exact hl h
-  by_cases hold : x ∈ sliceOf (st.svcRoutes d.name)
-  · simp [hold, hnin]
-  · simp only [hold, false_and, ↓reduceIte]
-    rw [a1 (Or.inr hl)]
-    cases hr : st.routes x with
-    | none => rfl
-    | some o =>
-      have hot : o.target = d.name := by
-        by_cases ht : o.target = d.name
-        · exact ht
-        · exact absurd ⟨o, hr, ht⟩ hf
-      have := h.owned _ _ hr
-      rw [hot] at this
-      exact absurd this hold
-
-theorem update_claims (st : SvcState) (d : Desc) (x : SvcName) :
-    x ∈ (addLoop d.name d.ver d.services 0 st.routes []).2 ↔ listed d.services x ∧ ¬ Foreign st.routes d.name x := by
-  obtain ⟨_, _, a3⟩ := addLoop_spec d.name d.ver d.services 0 st.routes [] x
-  rw [a3]; simp
-
-theorem removeTarget_routes (st : SvcState) (n : Name) (x : SvcName) :
-    (st.removeTarget n).routes x = if x ∈ sliceOf (st.svcRoutes n) then none else st.routes x := by
-  simp [SvcState.removeTarget, delLoop_spec]
-
-theorem SInv0_update {st : SvcState} (h : SInv0 st) (d : Desc) : SInv0 (updateRoutes st d) := by
-  constructor
-  · intro x r hr
-    rw [updateRoutes_svcRoutes]
-    by_cases hf : Foreign st.routes d.name x
-    · rw [update_foreign h d x hf] at hr
-      obtain ⟨o, ho, hne⟩ := hf
-      rw [hr] at ho; cases ho
-      rw [upd_other _ _ _ hne]
-      exact h.owned _ _ hr
-    · by_cases hl : listed d.services x
-      · obtain ⟨j, _, hp⟩ := update_listed (st := st) d x hl hf
-        rw [hp] at hr; cases hr
-        simp only [upd_same, sliceOf]
-        exact (update_claims st d x).mpr ⟨hl, hf⟩
-      · rw [update_unlisted h d x hl hf] at hr; cases hr
-  · intro n x hx
-    rw [updateRoutes_svcRoutes] at hx
-    by_cases hn : n = d.name
-    · subst hn
-      simp only [upd_same, sliceOf] at hx
-      obtain ⟨hl, hf⟩ := (update_claims st d x).mp hx
-      obtain ⟨j, _, hp⟩ := update_listed (st := st) d x hl hf
-      exact ⟨_, hp, rfl⟩
-    · rw [upd_other _ _ _ hn] at hx
-      obtain ⟨r, hr, ht⟩ := h.claims _ _ hx
-      have hf : Foreign st.routes d.name x := ⟨r, hr, by rw [ht]; exact hn⟩
-      exact ⟨r, by rw [update_foreign h d x hf]; exact hr, ht⟩
-
-theorem SInv0_remove {st : SvcState} (h : SInv0 st) (n : Name) : SInv0 (st.removeTarget n) := by
-  constructor
-  · intro x r hr
-    rw [removeTarget_routes] at hr
-    by_cases hx : x ∈ sliceOf (st.svcRoutes n)
-    · simp [hx] at hr
-    · simp only [hx, ↓reduceIte] at hr
-      have hne : r.target ≠ n := by
-        intro e; have := h.owned _ _ hr; rw [e] at this; exact hx this
-      show x ∈ sliceOf (upd st.svcRoutes n none r.target)
-      rw [upd_other _ _ _ hne]
-      exact h.owned _ _ hr
-  · intro m x hx
-    have hx' : x ∈ sliceOf (upd st.svcRoutes n none m) := hx
-    by_cases hm : m = n
-    · subst hm; simp [upd_same, sliceOf] at hx'
-    · rw [upd_other _ _ _ hm] at hx'
-      obtain ⟨r, hr, ht⟩ := h.claims _ _ hx'
-      refine ⟨r, ?_, ht⟩
-      rw [removeTarget_routes]
-      have : x ∉ sliceOf (st.svcRoutes n) := by
-        intro hxn
-        obtain ⟨r', hr', ht'⟩ := h.claims _ _ hxn
-        rw [hr] at hr'; cases hr'; exact hm (ht.symm.trans ht')
-      simp [this, hr]
-
-theorem SInv0_step {st : SvcState} (h : SInv0 st) (op : Op) : SInv0 (st.step op).1 := by
-  cases op with
-  | watch n =>
-    simp only [SvcState.step]
-    split
-    · exact h
-    · exact ⟨h.owned, h.claims⟩
-  | update n d =>
-    simp only [SvcState.step]
-    split
-    · exact h
-    · split
-      · exact h
-      · exact SInv0_update h d
-  | close n =>
-    simp only [SvcState.step]
-    split
-    · exact h
-    · have := SInv0_remove h n
-      exact ⟨this.owned, this.claims⟩
-
-theorem SInv0_run {st : SvcState} (h : SInv0 st) (ops : List Op) : SInv0 (st.run ops) := by
-  induction ops generalizing st with
-  | nil => exact h
-  | cons op ops ih => exact ih (SInv0_step h op)
-
 /-! ### the specification state -/
 
 theorem desc_watch (l : Latest) (n m : Name) : (l.step (.watch n)).desc m = l.desc m := by
@@ -395,136 +148,9 @@ theorem lists_specSvcRoute {l : Latest} {n : Name} {x : SvcName} (h : Lists l n 
   | none => exact absurd hs ((lastIdx_none x d.services 0).mp hj)
   | some j => exact ⟨⟨n, d.ver, j⟩, by simp [specSvcRoute, hd, hj], rfl⟩
 
-/-- the service table against the latest descriptions -/
-structure SInv (st : SvcState) (l : Latest) : Prop where
-  base : SInv0 st
-  watch : ∀ n, st.watching n = l.watched n
-  latest : ∀ x r, st.routes x = some r → specSvcRoute l r.target x = some r
-
-theorem SInv_init : SInv SvcState.init Latest.init := by
-  refine ⟨SInv0_init, ?_, ?_⟩
-  · intro n; rfl
-  · intro x r h; simp [SvcState.init] at h
-
 theorem specSvcRoute_congr {l l' : Latest} {n : Name} (h : l'.desc n = l.desc n) (x : SvcName) :
     specSvcRoute l' n x = specSvcRoute l n x := by
   simp [specSvcRoute, h]
-
-theorem SInv_step {st : SvcState} {l : Latest} (h : SInv st l) (op : Op) : SInv (st.step op).1 (l.step op) := by
-  refine ⟨SInv0_step h.base op, ?_, ?_⟩
-  · intro m
-    cases op with
-    | watch n =>
-      rw [watched_watch, ← h.watch]
-      simp only [SvcState.step]
-      by_cases hw : st.watching n = true
-      · simp only [hw, ↓reduceIte]
-        by_cases hm : m = n
-        · subst hm; simp [hw]
-        · simp [hm]
-      · simp only [hw, Bool.false_eq_true, ↓reduceIte]
-        by_cases hm : m = n
-        · subst hm; simp [upd_same]
-        · simp [upd_other _ _ _ hm, hm]
-    | update n d =>
-      rw [watched_update, ← h.watch]
-      simp only [SvcState.step]
-      split
-      · rfl
-      · split
-        · rfl
-        · rfl
-    | close n =>
-      rw [watched_close, ← h.watch]
-      simp only [SvcState.step]
-      by_cases hw : st.watching n = true
-      · simp only [hw, Bool.not_true, Bool.false_eq_true, ↓reduceIte]
-        by_cases hm : m = n
-        · subst hm; simp [upd_same]
-        · simp [upd_other _ _ _ hm, hm, SvcState.removeTarget]
-      · simp only [hw, Bool.not_false, ↓reduceIte]
-        by_cases hm : m = n
-        · subst hm; simp at hw; simp [hw]
-        · simp [hm]
-  · intro x r hr
-    cases op with
-    | watch n =>
-      have hr' : st.routes x = some r := by
-        simp only [SvcState.step] at hr
-        split at hr <;> exact hr
-      rw [specSvcRoute_congr (desc_watch l n r.target)]
-      exact h.latest _ _ hr'
-    | update n d =>
-      simp only [SvcState.step] at hr
-      by_cases hw : st.watching n = true
-      · by_cases hd : d.name = n
-        · simp only [hw, Bool.not_true, Bool.false_eq_true, ↓reduceIte, hd, ne_eq, not_true_eq_false] at hr
-          have hlw : l.watched n = true := by rw [← h.watch]; exact hw
-          by_cases hf : Foreign st.routes d.name x
-          · rw [update_foreign h.base d x hf] at hr
-            obtain ⟨o, ho, hne⟩ := hf
-            rw [hr] at ho; cases ho
-            have : (l.step (.update n d)).desc r.target = l.desc r.target := by
-              rw [desc_update]; simp [hd ▸ hne]
-            rw [specSvcRoute_congr this]
-            exact h.latest _ _ hr
-          · by_cases hl : listed d.services x
-            · obtain ⟨j, hj, hp⟩ := update_listed (st := st) d x hl hf
-              rw [hp] at hr; cases hr
-              have : (l.step (.update n d)).desc d.name = some d := by
-                rw [desc_update]; simp [hlw, hd]
-              simp [specSvcRoute, this, hj]
-            · rw [update_unlisted h.base d x hl hf] at hr; cases hr
-        · have hr' : st.routes x = some r := by
-            simp only [hw, Bool.not_true, Bool.false_eq_true, ↓reduceIte, ne_eq, hd, not_false_eq_true] at hr
-            exact hr
-          have : (l.step (.update n d)).desc r.target = l.desc r.target := by
-            rw [desc_update]; simp [hd]
-          rw [specSvcRoute_congr this]
-          exact h.latest _ _ hr'
-      · have hr' : st.routes x = some r := by
-          simp only [hw, Bool.not_false, ↓reduceIte] at hr
-          simpa using hr
-        have hlw : ¬ l.watched n = true := by rw [← h.watch]; exact hw
-        have : (l.step (.update n d)).desc r.target = l.desc r.target := by
-          rw [desc_update]; simp [hlw]
-        rw [specSvcRoute_congr this]
-        exact h.latest _ _ hr'
-    | close n =>
-      simp only [SvcState.step] at hr
-      by_cases hw : st.watching n = true
-      · simp only [hw, Bool.not_true, Bool.false_eq_true, ↓reduceIte] at hr
-        have hr2 : (st.removeTarget n).routes x = some r := hr
-        rw [removeTarget_routes] at hr2
-        by_cases hx : x ∈ sliceOf (st.svcRoutes n)
-        · simp [hx] at hr2
-        · simp only [hx, ↓reduceIte] at hr2
-          have hne : r.target ≠ n := by
-            intro e; have := h.base.owned _ _ hr2; rw [e] at this; exact hx this
-          have : (l.step (.close n)).desc r.target = l.desc r.target := by
-            rw [desc_close]; simp [hne]
-          rw [specSvcRoute_congr this]
-          exact h.latest _ _ hr2
-      · have hr' : st.routes x = some r := by
-          simp only [hw, Bool.not_false, ↓reduceIte] at hr
-          simpa using hr
-        -- n is not watched, so it owns nothing: r.target ≠ n
-        have hne : r.target ≠ n := by
-          intro e
-          obtain ⟨d, hd, _⟩ := specSvcRoute_some (h.latest _ _ hr')
-          have := desc_some_watched l _ d hd
-          rw [e, ← h.watch] at this
-          exact hw this
-        have : (l.step (.close n)).desc r.target = l.desc r.target := by
-          rw [desc_close]; simp [hne]
-        rw [specSvcRoute_congr this]
-        exact h.latest _ _ hr'
-
-theorem SInv_run {st : SvcState} {l : Latest} (h : SInv st l) (ops : List Op) :
-    SInv (st.run ops) (ops.foldl Latest.step l) := by
-  induction ops generalizing st l with
-  | nil => exact h
-  | cons op ops ih => exact ih (SInv_step h op)
 
 theorem Lists_congr {l l' : Latest} {m : Name} (h : l'.desc m = l.desc m) (svc : SvcName) :
     Lists l' m svc ↔ Lists l m svc := by
@@ -537,148 +163,9 @@ theorem NeverShared_head {svc : SvcName} {l : Latest} {ops : List Op} (h : Never
   | nil => exact h
   | cons op ops => exact h.1
 
-/-- every live lister owns the service (holds as long as the service was never shared) -/
-def ListersOwn (st : SvcState) (l : Latest) (svc : SvcName) : Prop :=
-  ∀ n, Lists l n svc → ∃ r, st.routes svc = some r ∧ r.target = n
-
-theorem ListersOwn_step {st : SvcState} {l : Latest} (h : SInv st l) (svc : SvcName)
-    (ho : ListersOwn st l svc) (op : Op) (hu : Unshared (l.step op) svc) :
-    ListersOwn (st.step op).1 (l.step op) svc := by
-  intro m hm
-  cases op with
-  | watch n =>
-    rw [Lists_congr (desc_watch l n m)] at hm
-    have : (st.step (.watch n)).1.routes = st.routes := by
-      simp only [SvcState.step]; split <;> rfl
-    rw [this]; exact ho m hm
-  | update n d =>
-    by_cases hv : st.watching n = true ∧ d.name = n
-    · obtain ⟨hw, hd⟩ := hv
-      have hlw : l.watched n = true := by rw [← h.watch]; exact hw
-      have hst : (st.step (.update n d)).1 = updateRoutes st d := by
-        simp [SvcState.step, hw, hd]
-      rw [hst]
-      by_cases hmn : m = n
-      · subst hmn
-        have hdesc : (l.step (.update m d)).desc m = some d := by rw [desc_update]; simp [hlw, hd]
-        obtain ⟨d', hd', hs⟩ := hm
-        rw [hdesc] at hd'; cases hd'
-        have hnf : ¬ Foreign st.routes d.name svc := by
-          rintro ⟨o, ho', hne⟩
-          have hlo := specSvcRoute_lists (h.latest _ _ ho')
-          have hne' : o.target ≠ m := by rw [← hd]; exact hne
-          have hsame : (l.step (.update m d)).desc o.target = l.desc o.target := by
-            rw [desc_update]; simp [hne']
-          have h1 : Lists (l.step (.update m d)) o.target svc := (Lists_congr hsame svc).mpr hlo
-          have h2 : Lists (l.step (.update m d)) m svc := ⟨d, hdesc, hs⟩
-          exact hne' (hu _ _ h1 h2)
-        obtain ⟨j, _, hp⟩ := update_listed (st := st) d svc hs hnf
-        exact ⟨_, hp, hd⟩
-      · have hsame : (l.step (.update n d)).desc m = l.desc m := by
-          rw [desc_update]; simp [hmn]
-        rw [Lists_congr hsame] at hm
-        obtain ⟨r, hr, ht⟩ := ho m hm
-        have hf : Foreign st.routes d.name svc := ⟨r, hr, by rw [ht, hd]; exact hmn⟩
-        exact ⟨r, by rw [update_foreign h.base d svc hf]; exact hr, ht⟩
-    · have hst : (st.step (.update n d)).1 = st := by
-        simp only [SvcState.step]
-        by_cases hw : st.watching n = true
-        · have hd : d.name ≠ n := fun e => hv ⟨hw, e⟩
-          simp [hw, hd]
-        · simp [hw]
-      have hsame : (l.step (.update n d)).desc m = l.desc m := by
-        rw [desc_update]
-        have : ¬ (l.watched n = true ∧ d.name = n ∧ m = n) := by
-          rintro ⟨a, b, _⟩; exact hv ⟨by rw [h.watch]; exact a, b⟩
-        simp [this]
-      rw [hst]; rw [Lists_congr hsame] at hm; exact ho m hm
-  | close n =>
-    have hmn : m ≠ n := by
-      intro e; subst e
-      obtain ⟨d, hd, _⟩ := hm
-      rw [desc_close] at hd; simp at hd
-    have hsame : (l.step (.close n)).desc m = l.desc m := by rw [desc_close]; simp [hmn]
-    rw [Lists_congr hsame] at hm
-    obtain ⟨r, hr, ht⟩ := ho m hm
-    by_cases hw : st.watching n = true
-    · have hst : (st.step (.close n)).1.routes = (st.removeTarget n).routes := by
-        simp [SvcState.step, hw]
-      rw [hst, removeTarget_routes]
-      have : svc ∉ sliceOf (st.svcRoutes n) := by
-        intro hx
-        obtain ⟨r', hr', ht'⟩ := h.base.claims _ _ hx
-        rw [hr] at hr'; cases hr'; exact hmn (ht.symm.trans ht')
-      exact ⟨r, by simp [this, hr], ht⟩
-    · have hst : (st.step (.close n)).1 = st := by simp [SvcState.step, hw]
-      rw [hst]; exact ⟨r, hr, ht⟩
-
-theorem ListersOwn_run (svc : SvcName) : ∀ (ops : List Op) (st : SvcState) (l : Latest), SInv st l →
-    ListersOwn st l svc → NeverShared svc l ops → ListersOwn (st.run ops) (ops.foldl Latest.step l) svc := by
-  intro ops
-  induction ops with
-  | nil => intro st l _ ho _; exact ho
-  | cons op ops ih =>
-    intro st l h ho hn
-    exact ih _ _ (SInv_step h op) (ListersOwn_step h svc ho op (NeverShared_head hn.2)) hn.2
-
 /-- `n` goes on claiming `svc` throughout `ops`: it is not closed and each of its descriptions lists `svc` -/
 def Keeps (n : Name) (svc : SvcName) (ops : List Op) : Prop :=
   ∀ op ∈ ops, op ≠ .close n ∧ ∀ d, op = .update n d → listed d.services svc
-
-theorem first_claimant_step {st : SvcState} (h : SInv0 st) (n : Name) (svc : SvcName) (r : SvcRoute)
-    (hr : st.routes svc = some r) (hn : r.target = n) (op : Op)
-    (hk : op ≠ .close n ∧ ∀ d, op = .update n d → listed d.services svc) :
-    ∃ r', (st.step op).1.routes svc = some r' ∧ r'.target = n := by
-  cases op with
-  | watch m =>
-    have : (st.step (.watch m)).1.routes = st.routes := by
-      simp only [SvcState.step]; split <;> rfl
-    rw [this]; exact ⟨r, hr, hn⟩
-  | update m d =>
-    by_cases hv : st.watching m = true ∧ d.name = m
-    · obtain ⟨hw, hd⟩ := hv
-      have hst : (st.step (.update m d)).1 = updateRoutes st d := by simp [SvcState.step, hw, hd]
-      rw [hst]
-      by_cases hmn : m = n
-      · subst hmn
-        have hl := hk.2 d rfl
-        have hnf : ¬ Foreign st.routes d.name svc := by
-          rintro ⟨o, ho, hne⟩; rw [hr] at ho; cases ho; exact hne (hn.trans hd.symm)
-        obtain ⟨j, _, hp⟩ := update_listed (st := st) d svc hl hnf
-        exact ⟨_, hp, hd⟩
-      · have hf : Foreign st.routes d.name svc := ⟨r, hr, by rw [hn, hd]; exact fun e => hmn e.symm⟩
-        exact ⟨r, by rw [update_foreign h d svc hf]; exact hr, hn⟩
-    · have hst : (st.step (.update m d)).1 = st := by
-        simp only [SvcState.step]
-        by_cases hw : st.watching m = true
-        · have hd : d.name ≠ m := fun e => hv ⟨hw, e⟩
-          simp [hw, hd]
-        · simp [hw]
-      rw [hst]; exact ⟨r, hr, hn⟩
-  | close m =>
-    have hmn : m ≠ n := by intro e; subst e; exact hk.1 rfl
-    by_cases hw : st.watching m = true
-    · have hst : (st.step (.close m)).1.routes = (st.removeTarget m).routes := by simp [SvcState.step, hw]
-      rw [hst, removeTarget_routes]
-      have : svc ∉ sliceOf (st.svcRoutes m) := by
-        intro hx
-        obtain ⟨r', hr', ht'⟩ := h.claims _ _ hx
-        rw [hr] at hr'; cases hr'; exact hmn (ht'.symm.trans hn)
-      exact ⟨r, by simp [this, hr], hn⟩
-    · have hst : (st.step (.close m)).1 = st := by simp [SvcState.step, hw]
-      rw [hst]; exact ⟨r, hr, hn⟩
-
-theorem first_claimant_run (n : Name) (svc : SvcName) : ∀ (ops : List Op) (st : SvcState), SInv0 st →
-    (∃ r, st.routes svc = some r ∧ r.target = n) → Keeps n svc ops →
-    ∃ r', (st.run ops).routes svc = some r' ∧ r'.target = n := by
-  intro ops
-  induction ops with
-  | nil => intro st _ h _; exact h
-  | cons op ops ih =>
-    intro st h ⟨r, hr, hn⟩ hk
-    have hop := hk op (by simp)
-    exact ih _ (SInv0_step h op) (first_claimant_step h n svc r hr hn op hop)
-      (fun o ho => hk o (by simp [ho]))
 
 /-! ## pattern table -/
 
